@@ -17,7 +17,7 @@ def pct(s):
 
 
 def rand_circuit(rng, n_in=None, n_gates=None, n_out=None, n_ff=None, style=None, p_unconn=0.1,
-                 p_direct=0.2, allow_consts=True, two_out_ff=True, p_dangling=0.1, xor_bias=0.0):
+                 p_direct=0.2, allow_consts=True, two_out_ff=True, p_dangling=0.1, xor_bias=0.0, p_orphan_ff=0.12):
     """returns a kyupy Circuit. style 'v': ports are cells 'input'/'output' around forks (Verilog reader style);
     style 'b': ports are forks (bench reader style)."""
     from kyupy.circuit import Circuit, Node, Line
@@ -42,6 +42,8 @@ def rand_circuit(rng, n_in=None, n_gates=None, n_out=None, n_ff=None, style=None
         kind = rng.choice(['DFF', 'DFF', 'dff', 'SDFFX1', 'LATCH', 'latch'])
         ff = Node(c, f'ff{k}', kind)
         only_qn = two_out_ff and rng.random() < 0.2      # first output left unconnected, second one used
+        if rng.random() < p_orphan_ff:                   # capture-only state element: no output connected (no (P)PI memory)
+            ffs.append(ff); continue
         if not only_qn:
             q = Node(c, f'q{k}'); Line(c, (ff, 0), q); sigs.append(q)
         if only_qn or (two_out_ff and rng.random() < 0.4):
